@@ -14,7 +14,7 @@ from ..core import shim as shim_mod
 PROPERTY = "C03"
 LEVEL = "exploration"
 RULE = ("truncate: every sequence of n designs over {-2,-1,0,1}^2 (costs a fixed function of the vector; two functions, one "
-        "with colliding costs) ranked by the real sorter, every k=1..n+1; crowding: every front whose objective columns are "
+        "with colliding costs) ranked by the real sorter, every k=1..n+1 (n=5, 6 over a five-vector lattice); crowding: fronts of 7-12 members on ladders and rotations; every front whose objective columns are "
         "permutations of uneven tie-free values (n<=5/6, m<=3) and every front over {0,1,2}^n columns (ties, zero range); "
         "tournament: every population n<=3/4 over V3^2 x {F,T}, ranked or all-equal front numbers, every ordered candidate "
         "pair, both coin results. Non-trivial = population with >=2 distinct designs; distinct = distinct case tuples.")
@@ -201,7 +201,7 @@ def _shard(shard, col: Collector):
     kind = shard[0]
     if kind == "trunc":
         _, fn, n, fixed = shard
-        vecs = list(itertools.product(LAT, repeat=2))
+        vecs = list(itertools.product(LAT, repeat=2)) if n <= 4 else list(itertools.product((-2.0, -1.0), repeat=2)) + [(0.0, 1.0)]
         for rest in itertools.product(vecs, repeat=n - len(fixed)):
             vs = list(fixed) + list(rest)
             nd = len(set(vs))
@@ -211,11 +211,23 @@ def _shard(shard, col: Collector):
                     col.nontrivial(("t", fn, tuple(vs), k))
                 for key, msg in check_truncate(vs, fn, k):
                     col.violation(key, "trunc", msg, {"vectors": vs, "fn": fn, "k": k})
-        col.sample({"kind": "truncate", "vectors": list(fixed) + [vecs[5]] * (n - len(fixed)), "costs": fn, "k": max(1, n - 1)}, 1)
+        col.sample({"kind": "truncate", "vectors": list(fixed) + [vecs[-1]] * (n - len(fixed)), "costs": fn, "k": max(1, n - 1)}, 1)
+    elif kind == "crowd_big":
+        # larger fronts, two objectives: one column ascending, the other every rotation / reversal of an uneven ladder
+        _, n = shard
+        ladder = tuple(float(x * x + x) for x in range(n))
+        cols2 = [ladder[i:] + ladder[:i] for i in range(n)] + [tuple(reversed(ladder))]
+        for c2 in cols2:
+            for c1 in (ladder, tuple(reversed(ladder))):
+                col.case()
+                col.nontrivial(("cb", c1, c2))
+                for key, msg in check_crowding([c1, c2], True):
+                    col.violation(key, "crowd", msg, {"columns": [c1, c2], "exact": True})
+        col.sample({"kind": "crowding-exact large front", "n": n}, 1)
     elif kind == "crowd_exact":
         _, n, m, first = shard
-        vals = UNEVEN[:n]
-        perms = list(itertools.permutations(vals))
+        vals = UNEVEN[:n] if n <= len(UNEVEN) else first
+        perms = list(itertools.permutations(vals)) if m > 1 else [()]
         for rest in itertools.product(perms, repeat=m - 1):
             cols = [first] + list(rest)
             col.case()
@@ -275,7 +287,15 @@ def run(tier, seed):
             shards.append(("trunc", "id", 4, (v, w)))
             if tier == "thorough":
                 shards.append(("trunc", "abs", 4, (v, w)))
+    small = list(itertools.product((-2.0, -1.0), repeat=2)) + [(0.0, 1.0)]
+    for v in small:
+        shards.append(("trunc", "id", 5, (v,)))
+        shards.append(("trunc", "abs", 5, (v,)))
+        for w in (small if tier == "thorough" else small[:2]):
+            shards.append(("trunc", "id", 6, (v, w)))
     # crowding
+    shards += [("crowd_exact", n, 1, tuple(float(x * x) for x in range(n))) for n in (7, 8, 12)]
+    shards += [("crowd_big", n) for n in (7, 9)]
     for n in (1, 2, 3, 4, 5) + ((6,) if tier == "thorough" else ()):
         for m in (1, 2, 3):
             if n >= 5 and m == 3 and tier != "thorough":
